@@ -1,15 +1,20 @@
 (* Props/C20.v — based sequencer: DA-ordered, size-bounded, restart-safe batches.
    Statements only; every proof is [exact <lemma of Proofs/BasedProofs.v>].
-   The model (Model/Based.v) is sequencers/based AS REPAIRED by fixes/C20-based-scan-position.diff; the three
+   The model (Model/Based.v) is sequencers/based AS REPAIRED by fixes/C20-based-scan-position.diff and by the
+   commit "fix: based sequencer: a request that cannot be used does not consume the carry-over queue"; the four
    defects of the pinned code are recorded as fixed findings (findings/C20.entries.json).
 
    Quantification: [cfg] = any start height and drift; [daf] = any DA contents (any number and size of
    transactions per height, empty heights), [wf_da] only says that a transaction found at height h is labelled
    h; a history [h : list item] = any sequence of calls and restarts, each call with any size limit (0 = the
    default; limits below one transaction included), any DA tip (heights above it are "from the future" during
-   that call) and any retrieval error script.  [manager_lbd h] restricts ONLY the LastBatchData argument: it is
-   what block.Manager passes (the ids of the last non-empty batch) or nothing, never forged; the property does
-   not quantify over LastBatchData.  C20_size_full, C20_carry_first_full, C20_restart_full hold without it. *)
+   that call), any retrieval error script, and any kind of request: an ordinary one, one made under a
+   cancelled context (every retrieval of the call fails), one with a foreign chain id, one whose LastBatchData
+   is malformed (its last id has 8 bytes or fewer and cannot name a DA height) — the last two cannot be used
+   and are answered with an error ([unusable c = Some e]).  [manager_lbd h] restricts ONLY the LastBatchData
+   argument: it is what block.Manager passes (the ids of the last non-empty batch), nothing, or malformed —
+   never forged to name a height; the property does not quantify over LastBatchData.  C20_size_full,
+   C20_carry_first_full, C20_restart_full, C20_unusable_request_no_effect_full hold without it. *)
 From Coq Require Import NArith List Bool.
 From Verif Require Import Model.Based Proofs.BasedProofs Check.BasedCheck.
 Import ListNotations.
@@ -46,9 +51,12 @@ Proof. exact size_bound. Qed.
 Print Assumptions C20_size_full.
 
 (* the transaction that did not fit comes first in the next batch: after ANY history with a carry-over head t,
-   ANY call either returns a batch starting with t, or returns nothing and leaves the queue as it is — and the
-   latter only when t alone exceeds the limit *)
+   ANY call whose request can be used (a cancelled context included) either returns a batch starting with t, or
+   returns nothing and leaves the queue as it is — and the latter only when t alone exceeds the limit.  (A call
+   whose request cannot be used returns an error and leaves everything as it is:
+   C20_unusable_request_no_effect_full.) *)
 Theorem C20_carry_first_full : forall cfg daf (h : list item) (c : call) t rest,
+  unusable c = None ->
   carry (final cfg daf init_sys h) = t :: rest ->
   (exists txs ts, call_resp cfg daf (final cfg daf init_sys h) c = MBatch (t :: txs) ts) \/
   (call_resp cfg daf (final cfg daf init_sys h) c = MNone /\
@@ -65,18 +73,41 @@ Theorem C20_restart_full : forall cfg daf (h : list item),
 Proof. exact restart_safe. Qed.
 Print Assumptions C20_restart_full.
 
-(* progress (the "at least once" half): with an empty queue, a call whose first retrieval is answered moves
-   the scan position forward; a carry-over head that fits the limit is released by the next call *)
+(* a request that cannot be used has no effect.  After ANY history h1 (any LastBatchData), a call with a foreign
+   chain id or a malformed LastBatchData returns the error, and the system after it IS the system before it:
+   the carry-over queue in memory, the stored queue, the stored scan position (and what the caller passes
+   next); whatever history h2 follows, what is released and where the system ends are what they are without
+   that call.  Second statement: the same for any number of such calls anywhere in a history. *)
+Theorem C20_unusable_request_no_effect_full : forall cfg daf (h1 h2 : list item) (c : call) e,
+  unusable c = Some e ->
+  call_resp cfg daf (final cfg daf init_sys h1) c = MErr e /\
+  after_call cfg daf (final cfg daf init_sys h1) c = final cfg daf init_sys h1 /\
+  released cfg daf init_sys (h1 ++ ICall c :: h2) = released cfg daf init_sys (h1 ++ h2) /\
+  final cfg daf init_sys (h1 ++ ICall c :: h2) = final cfg daf init_sys (h1 ++ h2).
+Proof. exact unusable_no_effect. Qed.
+Print Assumptions C20_unusable_request_no_effect_full.
+
+Theorem C20_unusable_requests_interleaved_full : forall cfg daf (h : list item),
+  released cfg daf init_sys h = released cfg daf init_sys (usable_only h) /\
+  final cfg daf init_sys h = final cfg daf init_sys (usable_only h).
+Proof. exact (fun cfg daf h => unusable_interleaved cfg daf h init_sys). Qed.
+Print Assumptions C20_unusable_requests_interleaved_full.
+
+(* progress (the "at least once" half): with an empty queue, a usable call whose first retrieval is answered
+   (so: not under a cancelled context) moves the scan position forward; a carry-over head that fits the limit
+   is released by the next usable call *)
 Theorem C20_progress_scan_full : forall cfg daf (h : list item) (c : call) txs,
   wf_da daf -> manager_lbd (h ++ [ICall c]) = true ->
+  unusable c = None ->
   carry (final cfg daf init_sys h) = [] ->
-  retrieve daf (c_tip c) (scan_pos cfg (sy_st (final cfg daf init_sys h))) (hd 0 (c_errs c)) = DOk txs ->
+  retrieve daf (c_tip c) (scan_pos cfg (sy_st (final cfg daf init_sys h))) (hd 0 (call_errs c)) = DOk txs ->
   scan_pos cfg (sy_st (final cfg daf init_sys h)) <
   scan_pos cfg (sy_st (after_call cfg daf (final cfg daf init_sys h) c)).
 Proof. exact progress_scan. Qed.
 Print Assumptions C20_progress_scan_full.
 
 Theorem C20_progress_carry_full : forall cfg daf (h : list item) (c : call) t rest,
+  unusable c = None ->
   carry (final cfg daf init_sys h) = t :: rest ->
   t_sz t <= eff_max (c_max c) ->
   exists txs ts, call_resp cfg daf (final cfg daf init_sys h) c = MBatch (t :: txs) ts.
@@ -84,33 +115,47 @@ Proof. exact progress_carry. Qed.
 Print Assumptions C20_progress_carry_full.
 
 (* ---- non-vacuity: a concrete history meeting the hypotheses, with a push-back, a limit below one transaction,
-   a restart with a non-empty queue, retrieval errors, an empty height, a future height ------------------------ *)
+   a restart with a non-empty queue, retrieval errors, an empty height, a future height, requests that cannot
+   be used (before the first call, with a carry-over waiting, around restarts), a cancelled context ---------- *)
 Definition ex_cfg := {| cf_start := 1; cf_drift := 2 |}.
 Definition ex_da : list (N * list N) := [(0,[9]); (1,[3;2;6]); (3,[4]); (5,[2;2]); (6,[1])].
 Definition ex_history : list item :=
-  [ ICall (mkcall 5 1 [] LMgr);        (* height 1: 3 taken, 2 does not fit (3+2>=5): pushed back with 6 *)
+  [ ICall (mkcallq 5 1 [] LShort QOk);          (* malformed LastBatchData before anything was stored *)
+    ICall (mkcall 5 1 [] LMgr);                 (* height 1: 3 taken, 2 does not fit (3+2>=5): pushed back with 6 *)
+    ICall (mkcallq 5 1 [] LShort QOk);          (* malformed LastBatchData while a carry-over is waiting *)
     IRestart;
-    ICall (mkcall 5 1 [] LMgr);        (* carry-over: 2 popped, 6 blocks; no scan *)
-    ICall (mkcall 5 4 [] LMgr);        (* 6 > 5: nothing can be released, nothing overtakes it *)
-    ICall (mkcall 7 4 [1] LMgr);       (* 6 released; the retrieval of height 2 fails *)
-    ICall (mkcall 7 4 [0;2] LNone);    (* height 2 empty, height 3: Get fails *)
+    ICall (mkcallq 5 1 [] LMgr QForeignId);     (* foreign chain id right after a restart *)
+    ICall (mkcall 5 1 [] LMgr);                 (* carry-over: 2 popped, 6 blocks; no scan *)
+    ICall (mkcall 5 4 [] LMgr);                 (* 6 > 5: nothing can be released, nothing overtakes it *)
+    ICall (mkcallq 7 4 [] LMgr QCancelled);     (* cancelled context: 6 released; the retrieval of height 2 fails *)
+    ICall (mkcall 7 4 [0;2] LNone);             (* height 2 empty, height 3: Get fails *)
+    ICall (mkcallq 0 9 [] LNone QForeignId);    (* foreign chain id right before a restart *)
     IRestart;
-    ICall (mkcall 7 4 [] LMgr);        (* height 3 released; height 4 empty; height 5 is in the future: stop there *)
-    ICall (mkcall 0 9 [] LMgr) ].      (* default limit: everything else *)
+    ICall (mkcall 7 4 [] LMgr);                 (* height 3 released; height 4 empty; height 5 is in the future: stop there *)
+    ICall (mkcallq 0 9 [] LShort QCancelled);   (* malformed LastBatchData under a cancelled context *)
+    ICall (mkcall 0 9 [] LMgr) ].               (* default limit: everything else *)
 
 Example ex_hypotheses : wf_da (da_at ex_da) /\ manager_lbd ex_history = true.
 Proof. split; [exact (da_at_wf ex_da)|vm_compute; reflexivity]. Qed.
 
+Definition err_class (rp : response) : N :=
+  match rp with MErr EInvalidId => 1 | MErr EBadLbd => 2 | _ => 0 end.
+
 Example ex_trace :
-  map (fun o => (ids_of (batch_of (fst (fst o))), snd (fst o), dur_scan (snd o), proj_q (dur_q (snd o))))
+  map (fun o => (err_class (fst (fst o)), ids_of (batch_of (fst (fst o))), snd (fst o), dur_scan (snd o), proj_q (dur_q (snd o))))
       (trace ex_cfg (da_at ex_da) init_sys ex_history) =
-  [ ([(1, 0)], [1], Some 2, [([(1, 1); (1, 2)], Some 1)]);
-    ([(1, 1)], [], Some 2, [([(1, 2)], Some 1)]);
-    ([], [], Some 2, [([(1, 2)], Some 1)]);
-    ([(1, 2)], [2], Some 2, []);
-    ([], [2; 3], Some 3, []);
-    ([(3, 0)], [3; 4; 5], Some 5, []);
-    ([(5, 0); (5, 1); (6, 0)], [5; 6; 7], Some 8, []) ].
+  [ (2, [], [], None, []);
+    (0, [(1, 0)], [1], Some 2, [([(1, 1); (1, 2)], Some 1)]);
+    (2, [], [], Some 2, [([(1, 1); (1, 2)], Some 1)]);
+    (1, [], [], Some 2, [([(1, 1); (1, 2)], Some 1)]);
+    (0, [(1, 1)], [], Some 2, [([(1, 2)], Some 1)]);
+    (0, [], [], Some 2, [([(1, 2)], Some 1)]);
+    (0, [(1, 2)], [2], Some 2, []);
+    (0, [], [2; 3], Some 3, []);
+    (1, [], [], Some 3, []);
+    (0, [(3, 0)], [3; 4; 5], Some 5, []);
+    (2, [], [], Some 5, []);
+    (0, [(5, 0); (5, 1); (6, 0)], [5; 6; 7], Some 8, []) ].
 Proof. vm_compute. reflexivity. Qed.
 
 Example ex_released_is_the_stream :
@@ -118,15 +163,49 @@ Example ex_released_is_the_stream :
   ids_of (stream (da_at ex_da) 1 8) = [(1, 0); (1, 1); (1, 2); (3, 0); (5, 0); (5, 1); (6, 0)].
 Proof. vm_compute. split; reflexivity. Qed.
 
+(* five of the calls cannot be used; the history without them has nine items *)
+Example ex_unusable_calls :
+  map (fun it => match it with ICall c => err_class (match unusable c with Some e => MErr e | None => MNone end) | IRestart => 0 end) ex_history
+  = [2; 0; 2; 0; 1; 0; 0; 0; 0; 1; 0; 0; 2; 0] /\
+  length (usable_only ex_history) = 9%nat.
+Proof. vm_compute. split; reflexivity. Qed.
+
 (* hypotheses of the two progress theorems and of carry-first are met along this history *)
 Example ex_progress_hypotheses :
-  carry (final ex_cfg (da_at ex_da) init_sys (firstn 1 ex_history)) <> [] /\
-  carry (final ex_cfg (da_at ex_da) init_sys (firstn 5 ex_history)) = [] /\
-  manager_lbd (firstn 7 ex_history ++ [ICall (mkcall 7 4 [] LMgr)]) = true /\
-  exists txs, retrieve (da_at ex_da) 4 (scan_pos ex_cfg (sy_st (final ex_cfg (da_at ex_da) init_sys (firstn 7 ex_history)))) 0 = DOk txs.
+  carry (final ex_cfg (da_at ex_da) init_sys (firstn 2 ex_history)) <> [] /\
+  carry (final ex_cfg (da_at ex_da) init_sys (firstn 8 ex_history)) = [] /\
+  manager_lbd (firstn 11 ex_history ++ [ICall (mkcall 7 4 [] LMgr)]) = true /\
+  unusable (mkcall 7 4 [] LMgr) = None /\
+  exists txs, retrieve (da_at ex_da) 4 (scan_pos ex_cfg (sy_st (final ex_cfg (da_at ex_da) init_sys (firstn 11 ex_history)))) (hd 0 (call_errs (mkcall 7 4 [] LMgr))) = DOk txs.
 Proof. vm_compute. repeat split; try discriminate. eexists. reflexivity. Qed.
 
-(* the witnesses of the three repaired defects (findings/C20-*.json), evaluated in the model *)
+(* the fourth repaired defect (findings/C20-unusable-request-consumes-carry-over.json): DA heights
+   1:{6,6} 2:{6} 3:{6} bytes, limit 10; call 1 releases (1,0) and carries (1,1) over; call 2 comes with a
+   LastBatchData whose last id is too short.  The repaired sequencer releases everything, in order; *)
+Definition probe_da : list (N * list N) := [(1,[6;6]); (2,[6]); (3,[6])].
+Definition probe_history : list item :=
+  [ ICall (mkcall 10 9 [] LMgr); ICall (mkcallq 10 9 [] LShort QOk);
+    ICall (mkcall 10 9 [] LMgr); ICall (mkcall 10 9 [] LMgr); ICall (mkcall 10 9 [] LMgr); ICall (mkcall 10 9 [] LMgr) ].
+
+Example witness_unusable_request_after_the_repair :
+  ids_of (released {| cf_start := 1; cf_drift := 2 |} (da_at probe_da) init_sys probe_history)
+  = [(1,0); (1,1); (2,0); (3,0)].
+Proof. vm_compute. reflexivity. Qed.
+
+(* before the repair the queue was popped (and the shortened queue stored) ahead of the LastBatchData check:
+   (1,1) is in no batch and is never released *)
+Example witness_unusable_request_before_the_repair :
+  ids_of (released_before_repair {| cf_start := 1; cf_drift := 2 |} (da_at probe_da) init_sys probe_history)
+  = [(1,0); (2,0); (3,0)].
+Proof. vm_compute. reflexivity. Qed.
+
+(* without a request that cannot be used the pre-repair rule is the repaired one *)
+Example before_the_repair_differs_only_there :
+  released_before_repair ex_cfg (da_at ex_da) init_sys (usable_only ex_history)
+  = released ex_cfg (da_at ex_da) init_sys ex_history.
+Proof. vm_compute. reflexivity. Qed.
+
+(* the witnesses of the three earlier repaired defects (findings/C20-*.json), evaluated in the model *)
 Example witness_rerelease_after_pushback :   (* pinned code: [(4,0)] [(4,0)] ... for ever *)
   map (fun o => ids_of (batch_of (fst (fst o))))
       (trace {| cf_start := 2; cf_drift := 2 |} (da_at [(4,[4;6])]) init_sys
